@@ -1251,16 +1251,21 @@ package resolve
 //@   at call dynamic:cancels: assert {cancel.after.unlock} !held(r.mu)
 //@   at call detachTriggerLocked: lemma {newly.detached.differ.from.collected} forall j in 0..len(result.toClose) :: forall k in 0..len(allToClose) :: result.toClose[j] != allToClose[k]
 //@   at call detachTriggerLocked: lemma {collected.keep.permission} forall k in 0..len(allToClose) :: allToClose[k].closePerm
+//@   ghost var g_toCancel int = 0
+//@   ghost var g_cancelled int = 0
+//@   at call detachTriggerLocked: ghost g_toCancel = ite(result.triggerCancel != nil, g_toCancel + 1, g_toCancel)
+//@   at call dynamic:cancels: ghost g_cancelled = g_cancelled + 1
+//@   ensures {every.detached.trigger.is.cancelled.started.up.or.not} g_cancelled == g_toCancel
 //@   ensures !held(r.mu)
 //@   modifies *, count(subDec), count(trigDec), allof(subscriptionState.closePerm)
 //@   loop 0:
 //@     invariant held(r.mu) && noneheld(trigger.mu) && fresh(triggerIDs)
 //@   loop 1:
-//@     invariant held(r.mu) && noneheld(trigger.mu) && fresh(allToClose) && fresh(cancels)
+//@     invariant held(r.mu) && noneheld(trigger.mu) && fresh(allToClose) && fresh(cancels) && g_toCancel == len(cancels) && g_cancelled == 0
 //@     invariant forall k in 0..len(allToClose) :: allToClose[k].closePerm
 //@     invariant forall a in 0..len(allToClose) :: forall b in 0..len(allToClose) :: a != b ==> allToClose[a] != allToClose[b]
 //@   loop 2:
-//@     invariant !held(r.mu)
+//@     invariant !held(r.mu) && g_cancelled == phi0 + 1 && g_toCancel == len(cancels)
 
 // ----------------------------------------------------------------------------------------------
 // C11: request de-duplication. Eligibility (queries only), key components, follower buffer freshness,
